@@ -107,7 +107,7 @@ example :
       inferT Γ e = .ok (.union (.cons (.union (.cons .int (.cons .none .nil))) (.cons .int .nil))) := by
   decide +kernel
 
-/-! ### what is still false on the code (both listed as known findings) -/
+/-! ### what is still false on the code (each listed as a known finding; all outside Core) -/
 
 /-- known finding `list-literal-class-dedup`: `on_list` keeps one element type per CLASS, the last one
     (reflections.py:681): `[[None], [1]]` is typed `list<list<int>>` although its first element is a `list<None>`.
@@ -139,6 +139,78 @@ theorem dict_get_counterexample : ∃ (Γ : Env) (ρ : VEnv) (e : Expr) (v : Val
       exact ⟨.dict [.str ['k']] [.int 1], by simp, .dict (.cons (.str _) .nil) (.cons (.int 1) .nil)⟩
     · cases hx
   · intro h; cases h
+
+/-- known finding `abs-of-bool`: the stub `abs[T](a: T) -> T` types `abs(True)` as `bool`, CPython computes the `int` 1. -/
+theorem abs_bool_counterexample : ∃ (e : Expr) (v : Val),
+    eval [] e = .ok v ∧ inferT [] e = .ok .bool ∧ ¬ Conf v .bool ∧ wt [] e = false := by
+  refine ⟨.fcall ['a', 'b', 's'] (.cons .true_ .nil), .int 1, by rfl, by decide +kernel, ?_, by decide +kernel⟩
+  intro h; cases h
+
+/-- known finding `list-of-dict-items`: `list(d.items())` is typed `list<K>` (the template of `list(iterable: Iterator[T])` is bound
+    to the first argument of `ItemsView<K, V>`), CPython builds a list of `(key, value)` tuples. -/
+theorem list_items_counterexample : ∃ (Γ : Env) (ρ : VEnv) (e : Expr) (v : Val),
+    EnvConf ρ Γ ∧ eval ρ e = .ok v ∧ inferT Γ e = .ok (.list .str) ∧ ¬ Conf v (.list .str) ∧ wt Γ e = false := by
+  refine ⟨[(['d'], .dict .str .int)], [(['d'], .dict [.str ['k']] [.int 1])],
+    .fcall ['l', 'i', 's', 't'] (.cons (.call (.var ['d']) ['i', 't', 'e', 'm', 's'] .nil) .nil),
+    .list [.tuple [.str ['k'], .int 1]], ?_, by rfl, by decide +kernel, ?_, by decide +kernel⟩
+  · intro x T hx
+    simp only [lookup] at hx ⊢
+    split at hx
+    · cases hx
+      rename_i hxd; subst hxd
+      exact ⟨.dict [.str ['k']] [.int 1], by simp, .dict (.cons (.str _) .nil) (.cons (.int 1) .nil)⟩
+    · cases hx
+  · intro h
+    obtain ⟨vs, hvs, hall⟩ := h.list_inv
+    cases hvs
+    have := hall.mem (.tuple [.str ['k'], .int 1]) (by simp)
+    cases this
+
+/-- known finding `boolop-nonbool-operands`: `and` / `or` are typed `bool` (on_and_compare / on_or_compare), CPython returns one
+    of the operands: `1 and 2` is the `int` 2. -/
+theorem boolop_counterexample : ∃ (e : Expr) (v : Val),
+    eval [] e = .ok v ∧ inferT [] e = .ok .bool ∧ ¬ Conf v .bool ∧ wt [] e = false := by
+  refine ⟨.and_ (.cons (.int 1) (.cons (.int 2) .nil)), .int 2, by rfl, by decide +kernel, ?_, by decide +kernel⟩
+  intro h; cases h
+
+/-- known finding `tuple-slice-nonliteral-bounds`: only literal or omitted bounds select elements (reflections.py:476); `t[-1:]`
+    keeps the whole tuple type. -/
+theorem tuple_slice_negative_counterexample : ∃ (Γ : Env) (ρ : VEnv) (e : Expr) (v : Val),
+    EnvConf ρ Γ ∧ eval ρ e = .ok v ∧ inferT Γ e = .ok (.tuple (.cons .int (.cons .str .nil))) ∧
+    ¬ Conf v (.tuple (.cons .int (.cons .str .nil))) ∧ wt Γ e = false := by
+  refine ⟨[(['t'], .tuple (.cons .int (.cons .str .nil)))], [(['t'], .tuple [.int 1, .str ['a']])],
+    .slice (.var ['t']) (.factor .neg (.int 1)) .empty_, .tuple [.str ['a']], ?_, by rfl, by decide +kernel, ?_, by decide +kernel⟩
+  · intro x T hx
+    simp only [lookup] at hx ⊢
+    split at hx
+    · cases hx
+      rename_i hxt; subst hxt
+      exact ⟨.tuple [.int 1, .str ['a']], by simp, .tuple (.cons (.int 1) (.cons (.str ['a']) .nil))⟩
+    · cases hx
+  · intro h
+    obtain ⟨vs, hvs, hz⟩ := h.tuple_inv
+    cases hvs
+    have := hz.length
+    simp [Tys.length] at this
+
+/-- known finding `ternary-union-of-containers`: the two branches `[a]` and `[None]` are inferred as different list types, their
+    ternary as `Union<list<int>, list<None>>`, on which no operator resolves: inference FAILS on an expression CPython evaluates. -/
+theorem ternary_union_counterexample : ∃ (Γ : Env) (ρ : VEnv) (e : Expr) (v : Val),
+    EnvConf ρ Γ ∧ eval ρ e = .ok v ∧ inferT Γ e = .error .opNotAllowed ∧ wt Γ e = false := by
+  refine ⟨[(['a'], .int), (['p'], .bool)], [(['a'], .int 1), (['p'], .bool true)],
+    .bin (.group (.tern (.list (.cons (.var ['a']) .nil)) (.var ['p']) (.list (.cons .none_ .nil)))) (.cons .mul (.int 2) .nil),
+    .list [.int 1, .int 1], ?_, by rfl, by decide +kernel, by decide +kernel⟩
+  intro x T hx
+  simp only [lookup] at hx ⊢
+  split at hx
+  · cases hx
+    rename_i hxa; subst hxa
+    exact ⟨.int 1, by simp, .int 1⟩
+  · split at hx
+    · cases hx
+      rename_i hxa hxp; subst hxp
+      exact ⟨.bool true, by simp [hxa], .bool true⟩
+    · cases hx
 
 /-! ## totality -/
 
